@@ -34,6 +34,7 @@ func writeEvidence(tier string, seed uint64, digest string, info map[string]inte
 	byK := map[string]int{}
 	byTasks := map[string]int{}
 	noisy, expP, slow, ydiff, missing, trunc := 0, 0, 0, 0, 0, 0
+	masked := 0
 	noisyNames, slowNames, noisyExample := map[string]int{}, map[string]int{}, map[string]string{}
 	preempted := 0
 	maxTasks := 0
@@ -78,6 +79,7 @@ func writeEvidence(tier string, seed uint64, digest string, info map[string]inte
 		for _, n := range r.SlowOps {
 			slowNames[n]++
 		}
+		masked += r.Masked
 		noisy += r.Noisy
 		expP += r.ExpPanics
 		slow += r.TooSlow
@@ -226,6 +228,7 @@ func writeEvidence(tier string, seed uint64, digest string, info map[string]inte
 			"files_with_most_unexecuted_sites":              zeros,
 			"expected_panics_in_baseline":                   expP,
 			"noisy_ops_excluded":                            noisy,
+			"ops_compared_with_addresses_masked":            masked,
 			"noisy_ops_by_name":                             noisyNames,
 			"noisy_ops_example_diff":                        noisyExample,
 			"too_slow_ops_by_name":                          slowNames,
